@@ -63,11 +63,11 @@ Ltac inv_bind H :=
   apply obind_ok in H as [a [H1 H]].
 
 Section Step.
-Variable Q : expr -> bool.
+Variables P Q : expr -> bool.
 Variable g : expr -> outcome expr.
-Hypothesis Hg : forall c c', Q c = true -> g c = Ok c' -> Q c' = true.
+Hypothesis Hg : forall c c', P c = true -> g c = Ok c' -> Q c' = true.
 
-Lemma omapM_keeps l l' : forallb Q l = true -> omapM g l = Ok l' -> forallb Q l' = true.
+Lemma omapM_keeps l l' : forallb P l = true -> omapM g l = Ok l' -> forallb Q l' = true.
 Proof.
   revert l'. induction l as [|x l IH]; intros l' Hq H.
   - cbn in H. injection H as <-. reflexivity.
@@ -76,7 +76,7 @@ Proof.
     inv_bind H. inv_bind H. injection H as <-. cbn [forallb]. rewrite (Hg _ _ Hx Hm), (IH _ Hl Hm0). reflexivity.
 Qed.
 Lemma omapM2_keeps l l' :
-  forallb (fun kv => Q (fst kv) && Q (snd kv)) l = true -> omapM2 g l = Ok l' ->
+  forallb (fun kv => P (fst kv) && P (snd kv)) l = true -> omapM2 g l = Ok l' ->
   forallb (fun kv => Q (fst kv) && Q (snd kv)) l' = true.
 Proof.
   revert l'. induction l as [|[a b] l IH]; intros l' Hq H.
@@ -87,7 +87,7 @@ Proof.
     rewrite (Hg _ _ Ha Hm), (Hg _ _ Hb Hm0), (IH _ Hl Hm1). reflexivity.
 Qed.
 Lemma omapM3_keeps l l' :
-  forallb (fun x => Q (fst (fst x)) && Q (snd (fst x)) && Q (snd x)) l = true -> omapM3 g l = Ok l' ->
+  forallb (fun x => P (fst (fst x)) && P (snd (fst x)) && P (snd x)) l = true -> omapM3 g l = Ok l' ->
   forallb (fun x => Q (fst (fst x)) && Q (snd (fst x)) && Q (snd x)) l' = true.
 Proof.
   revert l'. induction l as [|[[a b] c] l IH]; intros l' Hq H.
@@ -100,7 +100,7 @@ Proof.
     rewrite (Hg _ _ Ha Hm), (Hg _ _ Hb Hm0), (Hg _ _ Hc Hm1), (IH _ Hl Hm2). reflexivity.
 Qed.
 Lemma omapMkv_keeps (l l' : list (string * expr)) :
-  forallb (fun kv => Q (snd kv)) l = true -> omapMkv g l = Ok l' -> forallb (fun kv => Q (snd kv)) l' = true.
+  forallb (fun kv => P (snd kv)) l = true -> omapMkv g l = Ok l' -> forallb (fun kv => Q (snd kv)) l' = true.
 Proof.
   revert l'. induction l as [|[k a] l IH]; intros l' Hq H.
   - cbn in H. injection H as <-. reflexivity.
@@ -221,27 +221,27 @@ Lemma mapM_children_closed e y : closedF e = true -> mapM_children g e = Ok y ->
 Proof.
   intros He H. destruct e; cbn [closedF] in He; try discriminate; cbn [mapM_children] in H;
     try (injection H as <-; exact He); cbn [forall_children] in He.
-  - inv_bind H. injection H as <-. cbn [closedF forall_children]. eapply omapM_keeps; eassumption.
-  - inv_bind H. injection H as <-. cbn [closedF forall_children]. eapply (omapM2_keeps closedF); eassumption.
+  - inv_bind H. injection H as <-. cbn [closedF forall_children]. eapply (omapM_keeps closedF closedF); eassumption.
+  - inv_bind H. injection H as <-. cbn [closedF forall_children]. eapply (omapM2_keeps closedF closedF); eassumption.
   - apply andb_true_iff in He as [Ha Hb]. inv_bind H. inv_bind H. injection H as <-. cbn [closedF forall_children].
     rewrite (Hg _ _ Ha Hm), (Hg _ _ Hb Hm0). reflexivity.
-  - inv_bind H. injection H as <-. cbn [closedF forall_children]. eapply omapM_keeps; eassumption.
-  - inv_bind H. injection H as <-. cbn [closedF forall_children]. eapply (omapM3_keeps closedF); eassumption.
-  - inv_bind H. injection H as <-. cbn [closedF forall_children]. eapply Hg; eassumption.
-  - apply andb_true_iff in He as [Ha Hb]. inv_bind H. inv_bind H. injection H as <-. cbn [closedF forall_children].
-    rewrite (Hg _ _ Ha Hm), (Hg _ _ Hb Hm0). reflexivity.
-  - apply andb_true_iff in He as [Ha Hb]. inv_bind H. inv_bind H. injection H as <-. cbn [closedF forall_children].
-    rewrite (Hg _ _ Ha Hm), (Hg _ _ Hb Hm0). reflexivity.
-  - apply andb_true_iff in He as [Ha Hb]. inv_bind H. inv_bind H. injection H as <-. cbn [closedF forall_children].
-    rewrite (Hg _ _ Ha Hm), (Hg _ _ Hb Hm0). reflexivity.
+  - inv_bind H. injection H as <-. cbn [closedF forall_children]. eapply (omapM_keeps closedF closedF); eassumption.
+  - inv_bind H. injection H as <-. cbn [closedF forall_children]. eapply (omapM3_keeps closedF closedF); eassumption.
   - inv_bind H. injection H as <-. cbn [closedF forall_children]. eapply Hg; eassumption.
   - apply andb_true_iff in He as [Ha Hb]. inv_bind H. inv_bind H. injection H as <-. cbn [closedF forall_children].
     rewrite (Hg _ _ Ha Hm), (Hg _ _ Hb Hm0). reflexivity.
+  - apply andb_true_iff in He as [Ha Hb]. inv_bind H. inv_bind H. injection H as <-. cbn [closedF forall_children].
+    rewrite (Hg _ _ Ha Hm), (Hg _ _ Hb Hm0). reflexivity.
+  - apply andb_true_iff in He as [Ha Hb]. inv_bind H. inv_bind H. injection H as <-. cbn [closedF forall_children].
+    rewrite (Hg _ _ Ha Hm), (Hg _ _ Hb Hm0). reflexivity.
+  - inv_bind H. injection H as <-. cbn [closedF forall_children]. eapply Hg; eassumption.
+  - apply andb_true_iff in He as [Ha Hb]. inv_bind H. inv_bind H. injection H as <-. cbn [closedF forall_children].
+    rewrite (Hg _ _ Ha Hm), (Hg _ _ Hb Hm0). reflexivity.
   - inv_bind H. injection H as <-. cbn [closedF forall_children]. eapply Hg; eassumption.
   - inv_bind H. injection H as <-. cbn [closedF forall_children]. eapply Hg; eassumption.
   - inv_bind H. injection H as <-. cbn [closedF forall_children]. eapply Hg; eassumption.
   - inv_bind H. injection H as <-. cbn [closedF forall_children]. eapply Hg; eassumption.
-  - inv_bind H. injection H as <-. cbn [closedF forall_children]. eapply (omapMkv_keeps closedF); eassumption.
+  - inv_bind H. injection H as <-. cbn [closedF forall_children]. eapply (omapMkv_keeps closedF closedF); eassumption.
 Qed.
 
 Lemma composite_closed pick e x : closedF e = true -> composite_reduce pick g e = Ok x -> closedF x = true.
@@ -352,7 +352,7 @@ Lemma step_adhoc x y :
   forallb Q (map snd (ad_data x)) = true -> forallb Q (map snd (ad_data y)) = true.
 Proof.
   intros Hx Hqx. inv_bind Hx. injection Hx as <-. cbn [ad_data] in *.
-  rewrite forallb_map_snd in *. exact (omapMkv_keeps Q g Hg _ _ Hqx Hm).
+  rewrite forallb_map_snd in *. exact (omapMkv_keeps Q Q g Hg _ _ Hqx Hm).
 Qed.
 
 Lemma tx_mapM_slots t t' : tx_mapM g t = Ok t' -> forallb Q (tx_slots t) = true -> forallb Q (tx_slots t') = true.
@@ -382,7 +382,7 @@ Proof.
   - reflexivity.
   - (* adhoc *) exact (omapM_slots _ (fun a => map snd (ad_data a)) step_adhoc _ _ Hadh Hs4).
   - (* signers *) destruct (tx_signers t) as [s|]; cbn [option_mapM] in Hsig.
-    + inv_bind Hsig. injection Hsig as <-. cbn [from_option id] in *. exact (omapM_keeps Q g Hg _ _ Hs5 Hm).
+    + inv_bind Hsig. injection Hsig as <-. cbn [from_option id] in *. exact (omapM_keeps Q Q g Hg _ _ Hs5 Hm).
     + injection Hsig as <-. reflexivity.
   - (* validity *) destruct (tx_validity t) as [v|]; cbn [option_mapM] in Hval.
     + inv_bind Hval. inv_bind Hm. inv_bind Hm. injection Hm as <-. injection Hval as <-.
@@ -390,8 +390,8 @@ Proof.
       rewrite (Hg _ _ Ha Hm0), (Hg _ _ Hb Hm1). reflexivity.
     + injection Hval as <-. reflexivity.
   - (* metadata *) exact (omapM_slots _ (fun m => [md_key m; md_value m]) step_md _ _ Hmd Hs7).
-  - (* references *) exact (omapM_keeps Q g Hg _ _ Hs8 Hrefs).
-  - (* collateral *) exact (omapM_keeps Q g Hg _ _ Hq Hcoll).
+  - (* references *) exact (omapM_keeps Q Q g Hg _ _ Hs8 Hrefs).
+  - (* collateral *) exact (omapM_keeps Q Q g Hg _ _ Hq Hcoll).
 Qed.
 End TxStep.
 
